@@ -83,7 +83,7 @@ extern long mpt_buffer_set(MPT_STRUCT(buffer) *buf, const MPT_STRUCT(type_traits
 	/* terminate overlapping target data */
 	if (fini) {
 		size_t off;
-		for (off = pos; off < used; off += elem_size) {
+		for (off = pos; off < used && off < end; off += elem_size) {
 			fini(ptr + off);
 		}
 	}
@@ -125,10 +125,10 @@ extern long mpt_buffer_set(MPT_STRUCT(buffer) *buf, const MPT_STRUCT(type_traits
 			else if (init(ptr + pos, 0) < 0) {
 				/* invalidate remaining data as result of fatal error */
 				buf->_used = pos;
+				/* data in assigned range is terminated already */
 				if (fini) {
-					while (pos < used) {
+					for (pos = end; pos < used; pos += elem_size) {
 						fini(ptr + pos);
-						pos += elem_size;
 					}
 				}
 				return count;
